@@ -14,6 +14,10 @@ type Profile struct {
 	W       map[string]int // weights per op kind (+ "dupdelete", "badid")
 	MaxOps  int
 	Guarded bool // avoid inputs predicted to hit the known defects (duplicate ids, common-delete merges)
+	// Plain: stay away from the C14 findings (pool key `this`, typed-null keys) and from
+	// branches without a commit; used by the C13 / C15 plans, whose properties they are not.
+	Plain         bool
+	NoEmptyBranch bool
 }
 
 const DefaultThreshold = 500 * 1024 * 1024
@@ -49,9 +53,10 @@ func keyLit(r *rand.Rand, mixed bool) (zsonLit, atom string) {
 // GenAlphabet draws the value alphabet of a history: distinct values with duplicate keys,
 // null / missing keys, keys of mixed types, and pairs of values with equal bytes but
 // different types.
-func GenAlphabet(r *rand.Rand, cfg Cfg) (texts, keys []string) {
+func GenAlphabet(r *rand.Rand, cfg Cfg, plain bool) (texts, keys []string) {
 	n := 8 + r.Intn(14)
 	mixed := r.Intn(2) == 0
+	typedNull := r.Intn(4) == 0 && !plain
 	seen := map[string]bool{}
 	add := func(t, k string) {
 		if !seen[t] {
@@ -69,7 +74,7 @@ func GenAlphabet(r *rand.Rand, cfg Cfg) (texts, keys []string) {
 			switch x := r.Intn(12); {
 			case x == 0:
 				add(fmt.Sprintf("{v:%d}", i), "n")
-			case x == 1:
+			case x == 1 && typedNull:
 				add(fmt.Sprintf("{k:null(int64),v:%d}", i), "n")
 			case x == 2:
 				add(fmt.Sprintf("{k:null,v:%d}", i), "n")
@@ -88,7 +93,7 @@ func GenAlphabet(r *rand.Rand, cfg Cfg) (texts, keys []string) {
 				add(fmt.Sprintf("{a:%d,v:%d}", i, i), "n")
 			case x == 1:
 				add(fmt.Sprintf("{v:%d}", i), "n")
-			case x == 2:
+			case x == 2 && typedNull:
 				add(fmt.Sprintf("{a:{b:null(int64)},v:%d}", i), "n")
 			case x == 3:
 				add(fmt.Sprintf("{a:{c:%d},v:%d}", i, i), "n")
@@ -139,10 +144,10 @@ func subset(r *rand.Rand, xs []int, min int) []int {
 		return nil
 	}
 	p := r.Perm(len(xs))
-	n := min + r.Intn(len(xs)-min+1)
-	if n > len(xs) {
-		n = len(xs)
+	if min > len(xs) {
+		min = len(xs)
 	}
+	n := min + r.Intn(len(xs)-min+1)
 	if n > 4 {
 		n = 2 + r.Intn(3)
 	}
@@ -352,10 +357,15 @@ func (p *Profile) Next(r *rand.Rand, cfg Cfg, v *View) Op {
 			if v.NCommits > 0 && r.Intn(3) == 0 {
 				c = r.Intn(v.NCommits + 1)
 			}
+			if c == 0 && r.Intn(8) > 0 {
+				continue // branches without a commit only now and then
+			}
 			if c != 0 {
 				if _, ok := v.ObjsAt[c]; !ok {
 					continue
 				}
+			} else if p.NoEmptyBranch {
+				continue
 			}
 			return Op{Kind: "branch", Name: len(v.Branches), Commit: c}
 		case "merge":
